@@ -24,6 +24,13 @@ class Obj(object):
                                                        if not kv[0].startswith('_')))
 
 
+class PropertyObj(object):
+    """a property object built at run time: property(fget, fset, fdel)"""
+
+    def __init__(self, fget=None, fset=None, fdel=None):
+        self.fget, self.fset, self.fdel = fget, fset, fdel
+
+
 class Opaque(object):
     """a value the algebra knows nothing about; any use is Undecidable (attribute reads may be
     given meaning by `attrs`)"""
